@@ -181,6 +181,9 @@ func runStructural(id string, prog *Program, specs *SpecSet, known *KnownFile) e
 									offenders = append(offenders, funcKey(fn)+" ("+why+")")
 								}
 							default:
+								if isAtomicRead(ref) || isReadOnlyContractCall(ref, specs) {
+									continue // a read through the field's address (atomic Load, or a method whose verified contract says "modifies nothing")
+								}
 								if !isAllowed {
 									offenders = append(offenders, funcKey(fn)+" (address of the field escapes)")
 								}
